@@ -22,7 +22,7 @@ RULE = (
     "Generated: one iteration-based task (1 in 6: time-based with warm-up and ramp-up, global client index > 0), 1-4 clients, 1-6 request scripts (client overhead before/after, 1-3 wire requests with "
     "gaps - in a quarter of the scripts each in a nested request context of its own, as a composite runs its sub-requests -, service times 1/1024..12.5 s, outcome ok / success:false / ApiError 4xx,5xx / ConnectionTimeout under on-error=continue, "
     "return shape tuple/dict/None, weights, units), target throughput number / '<n> unit/s' / target-interval / none, deterministic or "
-    "poisson schedule, per-process perf_counter offset; in a class of cases the shared completion event is set from outside at a drawn "
+    "poisson schedule - or no target at all but a custom (plugin) scheduler with a fixed interval -, per-process perf_counter offset; in a class of cases the shared completion event is set from outside at a drawn "
     "instant while requests are in flight. Non-trivial = (throttled and at least one request started behind its schedule) "
     "or an error outcome was executed or clients >= 2. Distinct = distinct canonical JSON."
 )
@@ -33,7 +33,7 @@ ASSUMPTIONS = [
 ]
 BUDGET = {"quick": 4000, "thorough": 25000}
 REQUIRED_CLASSES = {"behind-schedule": 100, "error-outcome": 100, "multi-client": 300, "completed-from-outside-with-request-in-flight": 100, "ramped-up-client": 150,
-                    "failing-sub-request-in-nested-context": 100}
+                    "failing-sub-request-in-nested-context": 100, "throttled-by-custom-scheduler-only": 100}
 TOL = 1e-9
 
 
@@ -137,7 +137,13 @@ def run_case(case, obs):
             want_tp = spec.get("runner_throughput") if (spec["outcome"] == "ok" and spec["shape"] == "dict") else None
             obs.check(s.throughput == want_tp, "runner-throughput", f"{tag}: throughput {s.throughput} != {want_tp}")
     obs.check(r["clients_closed"], "client-not-closed", "an ES client was left open")
-    unthrottled = case.get("throughput") is None
+    unthrottled = case.get("throughput") is None and case.get("custom_interval") is None
+    if case.get("custom_interval") is not None:
+        obs.cls("throttled-by-custom-scheduler-only")
+        for ci in range(c):
+            for k, h in enumerate(r["handed"].get(ci, [])):
+                obs.check(abs(h["s"] - k * case["custom_interval"]) <= TOL, "custom-schedule-not-consulted",
+                          f"client {ci} request {k}: scheduled at {h['s']}, its scheduler says {k * case['custom_interval']}")
     if unthrottled:
         obs.cls("unthrottled")
     else:
